@@ -22,6 +22,7 @@ type waiter struct {
 	id        int
 	task      *simrt.Task
 	kind      int // 0 raw, 1 Wait
+	slowPred  bool
 	inCall    bool
 	cancel    context.CancelFunc
 	cancelReq int
@@ -234,6 +235,7 @@ func (w *world) waitCaller(x *waiter) {
 		x.predErr = errors.New("pred-error")
 		x.doneWithErr = c.S.PlanP(400)
 	}
+	x.slowPred = c.S.PlanP(400)
 	c.Descf("waiter %d: Wait(st[%d]>=%d, errAt=%d)", x.id, x.comp, x.k, x.errAt)
 	x.inCall = true
 	w.armCancel(x, ctx, cancel)
@@ -241,6 +243,10 @@ func (w *world) waitCaller(x *waiter) {
 		w.csEnter("Wait-predicate")
 		x.lastDone, x.lastErr = w.pred(x)
 		x.evals++
+		if x.slowPred {
+			// a predicate that takes a few steps: a cancellation can land while it runs
+			core.YieldN("bcastx.pred", 2)
+		}
 		w.csLeave()
 		return x.lastDone, x.lastErr
 	})
@@ -253,6 +259,8 @@ func (w *world) waitCaller(x *waiter) {
 	case err == context.Canceled:
 		if x.cancelReq == 0 {
 			c.Fail("C03.B2.spurious-cancel", "Wait returned context.Canceled although its context was never cancelled")
+		} else if x.evals > 0 && x.lastErr != nil {
+			c.Fail("C03.B2.predicate-error-replaced", "the last predicate evaluation returned %v, but Wait returned context.Canceled (the context was cancelled while the predicate ran)", x.lastErr)
 		}
 	case x.predErr != nil && err == x.predErr:
 		if x.lastErr != x.predErr {
